@@ -39,6 +39,10 @@ class AnsiFormatter(Formatter):
         formatted = self._formatter.colorize(string)
 
         if style is not None:
+            if not self._formatter.FULL_TAG_REGEX.search(string):
+                # Pastel returns a text without tags as it is, whatever the current style
+                formatted = self._formatter._apply_current_style(formatted)
+
             self._formatter._style_stack.pop()
 
         return formatted
